@@ -6,6 +6,7 @@ pub(crate) mod cell;
 pub(crate) mod chan;
 pub(crate) mod core;
 pub(crate) mod crashguard;
+pub(crate) mod pool;
 pub(crate) mod scell;
 pub(crate) mod tasks;
 pub(crate) mod units14;
@@ -99,6 +100,10 @@ fn run_property(prop: &'static str, tier: &str, seed: u64) -> i32 {
     let w = |n: usize| std::env::var("LOWLAB_WORKERS").ok().and_then(|s| s.parse().ok()).unwrap_or(n);
     match prop {
         "C13" | "C05" | "C04" => {
+            if !shuttle && prop == "C04" {
+                let n = ctx.n(200, 4_000);
+                ctx.run(&pool::PoolSub, n, w(4));
+            }
             if !shuttle {
                 let n = ctx.n(200_000, 4_000_000);
                 ctx.run(&tasks::TaskSeqSub, n, w(16));
@@ -177,6 +182,7 @@ fn replay(path: &str) -> i32 {
         "c13-task-seq" => replay_one(&tasks::TaskSeqSub, p, case, path),
         "c13-task-conc-shuttle" => replay_one(&tasks::TaskConcSub { iters: 2000 }, p, case, path),
         "c13-task-conc-threads" => replay_one(&tasks::TaskConcSub { iters: 200 }, p, case, path),
+        "c04-pool-idle" => replay_one(&pool::PoolSub, p, case, path),
         "c12-chan-poll" => replay_one(&chan::ChanPollSub, p, case, path),
         "c12-queue-conc-shuttle" => replay_one(&chan::QConcSub { iters: 2000 }, p, case, path),
         "c12-queue-conc-threads" => replay_one(&chan::QConcSub { iters: 200 }, p, case, path),
@@ -345,6 +351,7 @@ pub(crate) fn main() {
     let _ = PROP.set(p);
     crashguard::install(p);
     let wd = std::env::var("VERIF_WATCHDOG_S").ok().and_then(|s| s.parse().ok()).unwrap_or(120);
+    let _ = ENGINE.set(engine_name());
     start_watchdog(wd);
     std::process::exit(run_property(p, &tier, seed));
 }
